@@ -223,8 +223,12 @@ func guard(f func() string) (res string) {
 
 // ---------------------------------------------------------------- snapshots
 
-func (m *Machine) snapOf(e *entry) string {
-	defer func() { recover() }()
+func (m *Machine) snapOf(e *entry) (res string) {
+	defer func() {
+		if r := recover(); r != nil {
+			res = "!panic " + hx(fmt.Sprint(r)) // the container cannot be observed any more (Slice / Dict panicked)
+		}
+	}()
 	if e.isObj {
 		d := e.raw.(at.Object).Dict()
 		keys := make([]string, 0, len(d))
